@@ -177,7 +177,7 @@ def class_source(c, out):
     base = c.get("base") or "object"
     out.append("@vsc.randobj")
     out.append("class %s(%s):" % (c["name"], base))
-    out.append("    def __init__(self):")
+    out.append("    def __init__(self%s):" % ("".join(", " + a for a in c.get("ctor_params", []))))
     body = []
     if c.get("base"):
         body.append("super().__init__()")
